@@ -83,7 +83,7 @@ impl Property for C14 {
     }
     fn budget(&self, tier: Tier) -> (u32, u32) {
         match tier {
-            Tier::Quick => (700, 8),
+            Tier::Quick => (2000, 8),
             Tier::Thorough => (10000, 16),
         }
     }
